@@ -53,6 +53,7 @@ REGISTRY = {
     "X06": ("checks.x06", "run"),
     "X07": ("checks.x07", "run"),
     "X08": ("checks.x08", "run"),
+    "X09": ("checks.x09", "run"),
 }
 
 
